@@ -1,19 +1,45 @@
 package main
 
-// Translator table for the rest of renderResources (coq/Text/Full.v), read out of /repo with
-// go/ast: the format strings of the Fprintf calls in renderResources and writeToFile, the
-// conditions that select NOTES.txt files, CRD files and hidden Secrets, the isDryRun
-// conditions, the arguments install.go / upgrade.go pass to renderResources, and the order of
-// the statements of Install.RunWithContext / Upgrade.prepareUpgrade that decide whether a
-// rendered manifest can be applied (hide-secret guard, render, dry-run return, store/perform).
-// It becomes coq/Gen/C08Render.v; Props/C08.v states what the model was transcribed from.
+// Translator for the rest of renderResources (coq/Text/Full.v) -> coq/Gen/C08Render.v.
+//
+// It does not print source text to be compared with text.  It reads, with go/ast, the CALL
+// SITES that make up the behaviour the model transcribes (fmt.Fprintf to the buffer,
+// writeToFile, notesBuffer.WriteString, delete(files, k), pr.Run, os.Create / os.OpenFile,
+// append in CRDObjects) and prints for each one a row
+//
+//	(callee, format string resolved to its literal value, arguments in canonical form, CONDITION)
+//
+// where the condition is the path condition of the call as a boolean expression over named
+// atoms (Text/Cond.v): nested ifs, && chains, else branches, early `continue`, switch
+// statements and single-assignment locals all fold into it; same-package helpers are followed
+// (a call inside writeRenderedFiles(b, files) is a row of renderResources with the helper's
+// parameters replaced by the caller's arguments); boolean functions of the package
+// (hasManifestExtension, isDryRun) are evaluated symbolically, so an || chain, a switch and
+// early returns give equivalent expressions.  Props/C08.v proves every condition EQUIVALENT to
+// the model's condition by truth table.  Canonical form: the receiver is $recv, parameter n is
+// $argN, the variable of the innermost range loop is $elem (key: $key), a local assigned once
+// is replaced by its definition, package constants by their literal value.
+//
+// For the hide-secret guard: the necessary condition, over the atoms built from $recv.DryRun,
+// $recv.DryRunOption and $recv.HideSecret (isDryRun inlined), for control to reach the call of
+// renderResources and the calls that apply a release (performInstall*, KubeClient.Create,
+// Releases.Create) in Install.RunWithContext / Upgrade.prepareUpgrade: conditions on anything
+// else count as "may go either way", early returns prune.  No statement order is compared.
+//
+// What cannot be read is printed as an explicit BUnknown / "<unknown ...>" row: the file is
+// always well formed and the obligation that needs the row fails.
 
 import (
 	"bytes"
 	"fmt"
 	"go/ast"
+	"go/parser"
 	"go/printer"
 	"go/token"
+	"os"
+	"path/filepath"
+	"sort"
+	"strconv"
 	"strings"
 
 	"verif/harness/internal/hx"
@@ -21,267 +47,1042 @@ import (
 
 func init() { registerTable("C08Render", genC08Render) }
 
-func c08Src(fset *token.FileSet, n ast.Node) string {
+// ---- boolean expressions ---------------------------------------------------------------------
+
+type c08B struct {
+	op   string // T F atom not and or unk
+	a, b *c08B
+	s    string
+}
+
+var c08T, c08F = &c08B{op: "T"}, &c08B{op: "F"}
+
+func c08Atom(s string) *c08B { return &c08B{op: "atom", s: s} }
+func c08Unk(s string) *c08B  { return &c08B{op: "unk", s: s} }
+func c08Not(x *c08B) *c08B {
+	switch x.op {
+	case "T":
+		return c08F
+	case "F":
+		return c08T
+	case "not":
+		return x.a
+	}
+	return &c08B{op: "not", a: x}
+}
+func c08And(x, y *c08B) *c08B {
+	switch {
+	case x.op == "T":
+		return y
+	case y.op == "T":
+		return x
+	case x.op == "F" || y.op == "F":
+		return c08F
+	case x.coq() == y.coq():
+		return x
+	}
+	return &c08B{op: "and", a: x, b: y}
+}
+func c08Or(x, y *c08B) *c08B {
+	switch {
+	case x.op == "F":
+		return y
+	case y.op == "F":
+		return x
+	case x.op == "T" || y.op == "T":
+		return c08T
+	case x.coq() == y.coq():
+		return x
+	}
+	return &c08B{op: "or", a: x, b: y}
+}
+func (x *c08B) coq() string {
+	switch x.op {
+	case "T":
+		return "BTrue"
+	case "F":
+		return "BFalse"
+	case "atom":
+		return "(BAtom " + hx.CoqStr(x.s) + ")"
+	case "unk":
+		return "(BUnknown " + hx.CoqStr(x.s) + ")"
+	case "not":
+		return "(BNot " + x.a.coq() + ")"
+	case "and":
+		return "(BAnd " + x.a.coq() + " " + x.b.coq() + ")"
+	}
+	return "(BOr " + x.a.coq() + " " + x.b.coq() + ")"
+}
+
+// abs: over-approximations of "x is true" / "x is false" when only some atoms are tracked
+func (x *c08B) abs(relevant func(string) bool) (pos, neg *c08B) {
+	switch x.op {
+	case "T":
+		return c08T, c08F
+	case "F":
+		return c08F, c08T
+	case "atom":
+		if relevant == nil || relevant(x.s) {
+			return x, c08Not(x)
+		}
+		return c08T, c08T
+	case "unk":
+		if relevant == nil {
+			return x, c08Not(x)
+		}
+		return c08T, c08T
+	case "not":
+		p, n := x.a.abs(relevant)
+		return n, p
+	case "and":
+		p1, n1 := x.a.abs(relevant)
+		p2, n2 := x.b.abs(relevant)
+		return c08And(p1, p2), c08Or(n1, n2)
+	}
+	p1, n1 := x.a.abs(relevant)
+	p2, n2 := x.b.abs(relevant)
+	return c08Or(p1, p2), c08And(n1, n2)
+}
+
+// ---- a package ---------------------------------------------------------------------------------
+
+type c08Pkg struct {
+	fset   *token.FileSet
+	funcs  map[string]*ast.FuncDecl // "Recv.name" and "name"
+	byName map[string][]*ast.FuncDecl
+	consts map[string]string
+}
+
+func c08LoadPkg(repo, dir string) (*c08Pkg, error) {
+	p := &c08Pkg{fset: token.NewFileSet(), funcs: map[string]*ast.FuncDecl{}, byName: map[string][]*ast.FuncDecl{}, consts: map[string]string{}}
+	ents, err := os.ReadDir(filepath.Join(repo, dir))
+	if err != nil {
+		return nil, err
+	}
+	for _, e := range ents {
+		n := e.Name()
+		if e.IsDir() || !strings.HasSuffix(n, ".go") || strings.HasSuffix(n, "_test.go") || strings.HasPrefix(n, "zz_verif") {
+			continue
+		}
+		f, err := parser.ParseFile(p.fset, filepath.Join(repo, dir, n), nil, 0)
+		if err != nil {
+			return nil, err
+		}
+		for _, d := range f.Decls {
+			switch v := d.(type) {
+			case *ast.FuncDecl:
+				if v.Body == nil {
+					continue
+				}
+				key := v.Name.Name
+				if v.Recv != nil && len(v.Recv.List) == 1 {
+					t := v.Recv.List[0].Type
+					if st, ok := t.(*ast.StarExpr); ok {
+						t = st.X
+					}
+					if id, ok := t.(*ast.Ident); ok {
+						key = id.Name + "." + key
+					}
+				}
+				p.funcs[key] = v
+				p.byName[v.Name.Name] = append(p.byName[v.Name.Name], v)
+			case *ast.GenDecl:
+				if v.Tok != token.CONST && v.Tok != token.VAR {
+					continue
+				}
+				for _, s := range v.Specs {
+					vs := s.(*ast.ValueSpec)
+					for i, nm := range vs.Names {
+						if i < len(vs.Values) {
+							if lit, ok := strLit(vs.Values[i]); ok {
+								p.consts[nm.Name] = lit
+							}
+						}
+					}
+				}
+			}
+		}
+	}
+	return p, nil
+}
+
+// ---- scopes and canonical text ---------------------------------------------------------------------
+
+type c08Scope struct {
+	pkg    *c08Pkg
+	subst  map[string]string // identifier -> canonical text
+	bsub   map[string]*c08B  // identifier -> boolean value (locals assigned once)
+	lits   map[string]string // identifier -> string literal value
+	single map[string]bool   // locals defined exactly once and never assigned again
+	depth  int
+	recvT  string // type of the receiver ($recv), "" in a plain function
+}
+
+func (sc *c08Scope) child() *c08Scope {
+	n := &c08Scope{pkg: sc.pkg, subst: map[string]string{}, bsub: map[string]*c08B{}, lits: map[string]string{}, single: sc.single, depth: sc.depth, recvT: sc.recvT}
+	for k, v := range sc.subst {
+		n.subst[k] = v
+	}
+	for k, v := range sc.bsub {
+		n.bsub[k] = v
+	}
+	for k, v := range sc.lits {
+		n.lits[k] = v
+	}
+	return n
+}
+
+// c08Singles: the names introduced by exactly one := / var and never written again
+func c08Singles(body ast.Node) map[string]bool {
+	def, write := map[string]int{}, map[string]int{}
+	ast.Inspect(body, func(n ast.Node) bool {
+		switch v := n.(type) {
+		case *ast.AssignStmt:
+			for _, l := range v.Lhs {
+				if id, ok := l.(*ast.Ident); ok {
+					if v.Tok == token.DEFINE {
+						def[id.Name]++
+					} else {
+						write[id.Name]++
+					}
+				}
+			}
+		case *ast.IncDecStmt:
+			if id, ok := v.X.(*ast.Ident); ok {
+				write[id.Name]++
+			}
+		case *ast.RangeStmt:
+			for _, e := range []ast.Expr{v.Key, v.Value} {
+				if id, ok := e.(*ast.Ident); ok {
+					write[id.Name]++
+				}
+			}
+		case *ast.ValueSpec:
+			for _, id := range v.Names {
+				def[id.Name]++
+			}
+		case *ast.UnaryExpr:
+			if v.Op == token.AND {
+				if id, ok := v.X.(*ast.Ident); ok {
+					write[id.Name]++ // address taken
+				}
+			}
+		}
+		return true
+	})
+	out := map[string]bool{}
+	for k, n := range def {
+		if n == 1 && write[k] == 0 {
+			out[k] = true
+		}
+	}
+	return out
+}
+
+func c08FuncScope(pkg *c08Pkg, fd *ast.FuncDecl, recv string, args []string, depth int) *c08Scope {
+	sc := &c08Scope{pkg: pkg, subst: map[string]string{}, bsub: map[string]*c08B{}, lits: map[string]string{}, single: c08Singles(fd.Body), depth: depth}
+	if fd.Recv != nil && len(fd.Recv.List) == 1 {
+		if len(fd.Recv.List[0].Names) == 1 {
+			sc.subst[fd.Recv.List[0].Names[0].Name] = recv
+		}
+		t := fd.Recv.List[0].Type
+		if st, ok := t.(*ast.StarExpr); ok {
+			t = st.X
+		}
+		if id, ok := t.(*ast.Ident); ok && recv == "$recv" {
+			sc.recvT = id.Name
+		}
+	}
+	i := 0
+	for _, f := range fd.Type.Params.List {
+		for _, nm := range f.Names {
+			if args != nil && i < len(args) {
+				sc.subst[nm.Name] = args[i]
+			} else {
+				sc.subst[nm.Name] = fmt.Sprintf("$arg%d", i)
+			}
+			i++
+		}
+	}
+	return sc
+}
+
+func c08Paren(s string) string {
+	if strings.ContainsAny(s, " |&") && !(strings.HasPrefix(s, "(") && strings.HasSuffix(s, ")")) {
+		return "(" + s + ")"
+	}
+	return s
+}
+
+func (sc *c08Scope) canonList(es []ast.Expr) []string {
+	out := make([]string, len(es))
+	for i, e := range es {
+		out[i] = sc.canon(e)
+	}
+	return out
+}
+
+// canon: the expression as text, identifiers replaced as the scope says
+func (sc *c08Scope) canon(e ast.Expr) string {
+	switch v := e.(type) {
+	case *ast.Ident:
+		if s, ok := sc.subst[v.Name]; ok {
+			return s
+		}
+		if s, ok := sc.lits[v.Name]; ok {
+			return strconv.Quote(s)
+		}
+		if _, shadow := sc.single[v.Name]; !shadow {
+			if s, ok := sc.pkg.consts[v.Name]; ok {
+				return strconv.Quote(s)
+			}
+		}
+		return v.Name
+	case *ast.BasicLit:
+		if v.Kind == token.STRING {
+			if s, err := strconv.Unquote(v.Value); err == nil {
+				return strconv.Quote(s)
+			}
+		}
+		return v.Value
+	case *ast.ParenExpr:
+		return c08Paren(sc.canon(v.X))
+	case *ast.SelectorExpr:
+		return sc.canon(v.X) + "." + v.Sel.Name
+	case *ast.StarExpr:
+		return "*" + sc.canon(v.X)
+	case *ast.UnaryExpr:
+		return v.Op.String() + sc.canon(v.X)
+	case *ast.BinaryExpr:
+		op := v.Op.String()
+		if v.Op == token.OR || v.Op == token.AND || v.Op == token.ADD || v.Op == token.SUB || v.Op == token.MUL {
+			return sc.canon(v.X) + op + sc.canon(v.Y) // os.O_APPEND|os.O_WRONLY
+		}
+		return sc.canon(v.X) + " " + op + " " + sc.canon(v.Y)
+	case *ast.CallExpr:
+		s := sc.canon(v.Fun) + "(" + strings.Join(sc.canonList(v.Args), ", ")
+		if v.Ellipsis.IsValid() {
+			s += "..."
+		}
+		return s + ")"
+	case *ast.IndexExpr:
+		return sc.canon(v.X) + "[" + sc.canon(v.Index) + "]"
+	case *ast.SliceExpr:
+		lo, hi := "", ""
+		if v.Low != nil {
+			lo = sc.canon(v.Low)
+		}
+		if v.High != nil {
+			hi = sc.canon(v.High)
+		}
+		return sc.canon(v.X) + "[" + lo + ":" + hi + "]"
+	case *ast.KeyValueExpr:
+		return sc.canon(v.Key) + ": " + sc.canon(v.Value)
+	case *ast.CompositeLit:
+		t := ""
+		if v.Type != nil {
+			t = c08Print(sc.pkg.fset, v.Type)
+		}
+		return t + "{" + strings.Join(sc.canonList(v.Elts), ", ") + "}"
+	case *ast.FuncLit:
+		return "func{...}"
+	}
+	return c08Print(sc.pkg.fset, e)
+}
+
+func c08Print(fset *token.FileSet, n ast.Node) string {
 	var b bytes.Buffer
 	printer.Fprint(&b, fset, n)
 	return strings.Join(strings.Fields(b.String()), " ")
 }
 
-// c08Func: the declaration of func (recv) name, recv == "" for a plain function
-func c08Func(f *ast.File, recv, name string) *ast.FuncDecl {
-	for _, d := range f.Decls {
-		fd, ok := d.(*ast.FuncDecl)
-		if !ok || fd.Name.Name != name {
-			continue
-		}
-		r := ""
-		if fd.Recv != nil && len(fd.Recv.List) == 1 {
-			t := fd.Recv.List[0].Type
-			if st, ok := t.(*ast.StarExpr); ok {
-				t = st.X
-			}
-			if id, ok := t.(*ast.Ident); ok {
-				r = id.Name
-			}
-		}
-		if r == recv {
-			return fd
-		}
+func c08IsLit(e ast.Expr) bool {
+	switch v := e.(type) {
+	case *ast.BasicLit:
+		return true
+	case *ast.Ident:
+		return v.Name == "nil" || v.Name == "true" || v.Name == "false"
+	case *ast.ParenExpr:
+		return c08IsLit(v.X)
 	}
-	return nil
+	return false
 }
 
-func c08CallsTo(n ast.Node, name string) []*ast.CallExpr {
-	var out []*ast.CallExpr
-	ast.Inspect(n, func(x ast.Node) bool {
-		if c, ok := x.(*ast.CallExpr); ok {
-			if fn, ok := selName(c.Fun); ok && fn == name {
-				out = append(out, c)
+func c08BoolShaped(e ast.Expr) bool {
+	switch v := e.(type) {
+	case *ast.ParenExpr:
+		return c08BoolShaped(v.X)
+	case *ast.UnaryExpr:
+		return v.Op == token.NOT
+	case *ast.BinaryExpr:
+		switch v.Op {
+		case token.LAND, token.LOR, token.EQL, token.NEQ, token.LSS, token.GTR, token.LEQ, token.GEQ:
+			return true
+		}
+	}
+	return false
+}
+
+// resolveFunc: the declaration a call refers to, when it is a function or method of this package
+func (sc *c08Scope) resolveFunc(call *ast.CallExpr) (fd *ast.FuncDecl, recv string) {
+	switch f := call.Fun.(type) {
+	case *ast.Ident:
+		if _, local := sc.subst[f.Name]; local {
+			return nil, ""
+		}
+		if d, ok := sc.pkg.funcs[f.Name]; ok {
+			return d, ""
+		}
+	case *ast.SelectorExpr:
+		// a method: unique by name among the methods of the package, and not a package-qualified call
+		if id, ok := f.X.(*ast.Ident); ok {
+			if _, isVar := sc.subst[id.Name]; !isVar && !sc.single[id.Name] && id.Obj == nil {
+				return nil, "" // strings.X, os.X, ...
+			}
+		}
+		if sc.recvT != "" && sc.canon(f.X) == "$recv" {
+			if d, ok := sc.pkg.funcs[sc.recvT+"."+f.Sel.Name]; ok {
+				return d, "$recv"
+			}
+		}
+		var cands []*ast.FuncDecl
+		for _, d := range sc.pkg.byName[f.Sel.Name] {
+			if d.Recv != nil {
+				cands = append(cands, d)
+			}
+		}
+		if len(cands) == 1 {
+			return cands[0], sc.canon(f.X)
+		}
+		// several types have a method of that name: take the one of the receiver type if the receiver is $recv
+		return nil, ""
+	}
+	return nil, ""
+}
+
+func c08ReturnsBool(fd *ast.FuncDecl) bool {
+	r := fd.Type.Results
+	if r == nil || len(r.List) != 1 || len(r.List[0].Names) > 1 {
+		return false
+	}
+	id, ok := r.List[0].Type.(*ast.Ident)
+	return ok && id.Name == "bool"
+}
+
+// toB: a Go condition as a boolean expression over canonical atoms
+func (sc *c08Scope) toB(e ast.Expr) *c08B {
+	switch v := e.(type) {
+	case *ast.ParenExpr:
+		return sc.toB(v.X)
+	case *ast.Ident:
+		switch v.Name {
+		case "true":
+			return c08T
+		case "false":
+			return c08F
+		}
+		if b, ok := sc.bsub[v.Name]; ok {
+			return b
+		}
+		return c08Atom(sc.canon(v))
+	case *ast.UnaryExpr:
+		if v.Op == token.NOT {
+			return c08Not(sc.toB(v.X))
+		}
+	case *ast.BinaryExpr:
+		x, y := v.X, v.Y
+		switch v.Op {
+		case token.LAND:
+			return c08And(sc.toB(x), sc.toB(y))
+		case token.LOR:
+			return c08Or(sc.toB(x), sc.toB(y))
+		case token.EQL, token.NEQ:
+			if c08IsLit(x) && !c08IsLit(y) {
+				x, y = y, x
+			}
+			var a *c08B
+			switch sc.canon(y) {
+			case "true":
+				a = sc.toB(x)
+			case "false":
+				a = c08Not(sc.toB(x))
+			default:
+				a = c08Atom(sc.canon(x) + " == " + sc.canon(y))
+			}
+			if v.Op == token.NEQ {
+				return c08Not(a)
+			}
+			return a
+		case token.LSS:
+			return c08Atom(sc.canon(x) + " < " + sc.canon(y))
+		case token.GTR:
+			return c08Atom(sc.canon(y) + " < " + sc.canon(x))
+		case token.GEQ:
+			return c08Not(c08Atom(sc.canon(x) + " < " + sc.canon(y)))
+		case token.LEQ:
+			return c08Not(c08Atom(sc.canon(y) + " < " + sc.canon(x)))
+		}
+	case *ast.CallExpr:
+		if fd, recv := sc.resolveFunc(v); fd != nil && c08ReturnsBool(fd) && sc.depth < 3 {
+			return c08EvalBool(sc.pkg, fd.Body, c08FuncScope(sc.pkg, fd, recv, sc.canonList(v.Args), sc.depth+1))
+		}
+	}
+	return c08Atom(sc.canon(e))
+}
+
+// ---- the walker ----------------------------------------------------------------------------------------
+
+type c08Row struct {
+	callee, format string
+	args           []string
+	cond           *c08B
+}
+
+type c08Walk struct {
+	pkg         *c08Pkg
+	dropReturns bool                 // conditions are relative to reaching the place: early error returns do not count
+	relevant    func(string) bool    // nil: every atom is tracked
+	interesting func(callee string) bool
+	follow      bool
+	rows        []c08Row
+	onReturn    func(C *c08B, r *ast.ReturnStmt, sc *c08Scope)
+	stack       map[*ast.FuncDecl]bool // functions being walked: a recursive call is not followed
+}
+
+const (
+	c08Falls = iota
+	c08Loops // continue / break / goto
+	c08Returns
+)
+
+func c08EndKind(b *ast.BlockStmt) int {
+	if b == nil || len(b.List) == 0 {
+		return c08Falls
+	}
+	switch v := b.List[len(b.List)-1].(type) {
+	case *ast.ReturnStmt:
+		return c08Returns
+	case *ast.BranchStmt:
+		if v.Tok != token.FALLTHROUGH {
+			return c08Loops
+		}
+	case *ast.ExprStmt:
+		if c, ok := v.X.(*ast.CallExpr); ok {
+			if id, ok := c.Fun.(*ast.Ident); ok && id.Name == "panic" {
+				return c08Returns
+			}
+		}
+	}
+	return c08Falls
+}
+
+// resolveString: a string expression as its value (literals, named constants, locals, +)
+func (sc *c08Scope) resolveString(e ast.Expr) (string, bool) {
+	switch v := e.(type) {
+	case *ast.BasicLit:
+		return strLit(v)
+	case *ast.ParenExpr:
+		return sc.resolveString(v.X)
+	case *ast.Ident:
+		if s, ok := sc.lits[v.Name]; ok {
+			return s, true
+		}
+		if s, ok := sc.pkg.consts[v.Name]; ok {
+			return s, true
+		}
+	case *ast.BinaryExpr:
+		if v.Op == token.ADD {
+			a, ok1 := sc.resolveString(v.X)
+			b, ok2 := sc.resolveString(v.Y)
+			return a + b, ok1 && ok2
+		}
+	}
+	return "", false
+}
+
+func (w *c08Walk) expr(e ast.Node, C *c08B, sc *c08Scope) {
+	if e == nil {
+		return
+	}
+	ast.Inspect(e, func(n ast.Node) bool {
+		switch v := n.(type) {
+		case *ast.FuncLit:
+			return false
+		case *ast.CallExpr:
+			callee := sc.canon(v.Fun)
+			if w.interesting != nil && w.interesting(callee) {
+				r := c08Row{callee: callee, cond: C}
+				args := v.Args
+				if strings.HasSuffix(callee, "Fprintf") && len(args) >= 2 {
+					if s, ok := sc.resolveString(args[1]); ok {
+						r.format = s
+					} else {
+						r.format = "<unknown format: " + sc.canon(args[1]) + ">"
+					}
+					args = args[2:]
+				}
+				r.args = sc.canonList(args)
+				w.rows = append(w.rows, r)
+				return true
+			}
+			if w.follow && sc.depth < 3 {
+				if fd, recv := sc.resolveFunc(v); fd != nil && !w.stack[fd] {
+					inner := c08FuncScope(w.pkg, fd, recv, sc.canonList(v.Args), sc.depth+1)
+					saved := w.onReturn
+					w.onReturn = nil
+					w.stack[fd] = true
+					w.block(fd.Body.List, C, inner)
+					w.stack[fd] = false
+					w.onReturn = saved
+				}
 			}
 		}
 		return true
 	})
-	return out
 }
 
-// c08ReturnsError: the block ends with a return whose last result is not the literal nil
-func c08ReturnsError(b *ast.BlockStmt) bool {
-	if len(b.List) == 0 {
-		return false
+func (w *c08Walk) define(lhs []ast.Expr, rhs []ast.Expr, sc *c08Scope) {
+	if len(lhs) != len(rhs) {
+		return
 	}
-	r, ok := b.List[len(b.List)-1].(*ast.ReturnStmt)
-	if !ok || len(r.Results) == 0 {
-		return false
+	// parallel definition: evaluate all right-hand sides first
+	type d struct {
+		name, text string
+		b          *c08B
+		lit        *string
 	}
-	id, isIdent := r.Results[len(r.Results)-1].(*ast.Ident)
-	return !(isIdent && id.Name == "nil")
+	var ds []d
+	for i, l := range lhs {
+		id, ok := l.(*ast.Ident)
+		if !ok || id.Name == "_" || !sc.single[id.Name] {
+			continue
+		}
+		if !c08Inlinable(rhs[i]) {
+			continue
+		}
+		x := d{name: id.Name, text: c08Paren(sc.canon(rhs[i]))}
+		if c08BoolShaped(rhs[i]) {
+			x.b = sc.toB(rhs[i])
+		} else if c, ok := rhs[i].(*ast.CallExpr); ok {
+			if fd, _ := sc.resolveFunc(c); fd != nil && c08ReturnsBool(fd) {
+				x.b = sc.toB(rhs[i])
+			}
+		}
+		if s, ok := sc.resolveString(rhs[i]); ok {
+			x.lit = &s
+		}
+		ds = append(ds, x)
+	}
+	for _, x := range ds {
+		sc.subst[x.name] = x.text
+		if x.b != nil {
+			sc.bsub[x.name] = x.b
+		}
+		if x.lit != nil {
+			sc.lits[x.name] = *x.lit
+			delete(sc.subst, x.name)
+		}
+	}
 }
 
-// c08Skeleton tags the top-level statements of a function body that matter for "can a rendered
-// manifest be applied": in source order.
-func c08Skeleton(fset *token.FileSet, fd *ast.FuncDecl, recv string) []string {
-	var tags []string
-	for _, st := range fd.Body.List {
-		if ifs, ok := st.(*ast.IfStmt); ok && ifs.Init == nil {
-			cond := c08Src(fset, ifs.Cond)
-			switch {
-			case cond == "!"+recv+".isDryRun() && "+recv+".HideSecret" && c08ReturnsError(ifs.Body) && ifs.Else == nil:
-				tags = append(tags, "hide-guard")
-				continue
-			case cond == recv+".isDryRun()" && ifs.Else == nil && len(ifs.Body.List) > 0:
-				if r, ok := ifs.Body.List[len(ifs.Body.List)-1].(*ast.ReturnStmt); ok && len(r.Results) > 0 {
-					if id, ok := r.Results[len(r.Results)-1].(*ast.Ident); ok && id.Name == "nil" {
-						tags = append(tags, "dry-run-return")
-						continue
+// c08Inlinable: a local may stand for its definition unless that creates a fresh object
+func c08Inlinable(e ast.Expr) bool {
+	switch v := e.(type) {
+	case *ast.CompositeLit, *ast.FuncLit:
+		return false
+	case *ast.UnaryExpr:
+		return v.Op != token.AND
+	case *ast.CallExpr:
+		if id, ok := v.Fun.(*ast.Ident); ok && (id.Name == "make" || id.Name == "new") {
+			return false
+		}
+	}
+	return true
+}
+
+// block: the condition after the statements, and how the block ended if it cannot fall through
+func (w *c08Walk) block(list []ast.Stmt, C *c08B, sc *c08Scope) (*c08B, int) {
+	for _, s := range list {
+		var k int
+		C, k = w.stmt(s, C, sc)
+		if k != c08Falls {
+			return c08F, k
+		}
+	}
+	return C, c08Falls
+}
+
+func (w *c08Walk) stmt(s ast.Stmt, C *c08B, sc *c08Scope) (*c08B, int) {
+	switch v := s.(type) {
+	case nil:
+		return C, c08Falls
+	case *ast.BlockStmt:
+		return w.block(v.List, C, sc)
+	case *ast.LabeledStmt:
+		return w.stmt(v.Stmt, C, sc)
+	case *ast.ReturnStmt:
+		w.expr(v, C, sc)
+		if w.onReturn != nil {
+			w.onReturn(C, v, sc)
+		}
+		return c08F, c08Returns
+	case *ast.BranchStmt:
+		if v.Tok == token.FALLTHROUGH {
+			return C, c08Falls
+		}
+		return c08F, c08Loops
+	case *ast.AssignStmt:
+		w.expr(v, C, sc)
+		if v.Tok == token.DEFINE {
+			w.define(v.Lhs, v.Rhs, sc)
+		}
+		return C, c08Falls
+	case *ast.DeclStmt:
+		w.expr(v, C, sc)
+		if gd, ok := v.Decl.(*ast.GenDecl); ok {
+			for _, sp := range gd.Specs {
+				if vs, ok := sp.(*ast.ValueSpec); ok && len(vs.Values) == len(vs.Names) {
+					lhs := make([]ast.Expr, len(vs.Names))
+					for i, n := range vs.Names {
+						lhs[i] = n
 					}
+					w.define(lhs, vs.Values, sc)
 				}
 			}
 		}
-		switch {
-		case len(c08CallsTo(st, "renderResources")) > 0:
-			tags = append(tags, "render")
-		case len(c08CallsTo(st, "performInstallCtx")) > 0 || len(c08CallsTo(st, "performInstall")) > 0:
-			tags = append(tags, "perform")
+		return C, c08Falls
+	case *ast.IfStmt:
+		inner := sc
+		if v.Init != nil {
+			inner = sc.child()
+			C, _ = w.stmt(v.Init, C, inner)
 		}
+		w.expr(v.Cond, C, inner)
+		pos, neg := inner.toB(v.Cond).abs(w.relevant)
+		if w.dropReturns && inner.depth == 0 {
+			if c08EndKind(v.Body) == c08Returns {
+				neg = c08T
+			}
+			if eb, ok := v.Else.(*ast.BlockStmt); ok && c08EndKind(eb) == c08Returns {
+				pos = c08T
+			}
+		}
+		startB, startE := c08And(C, pos), c08And(C, neg)
+		cb, kb := w.block(v.Body.List, startB, inner.child())
+		ce, ke := startE, c08Falls
+		if v.Else != nil {
+			ce, ke = w.stmt(v.Else, startE, inner.child())
+		}
+		switch {
+		case kb != c08Falls && ke != c08Falls:
+			if kb == c08Returns && ke == c08Returns {
+				return c08F, c08Returns
+			}
+			return c08F, c08Loops
+		case kb != c08Falls:
+			return ce, c08Falls
+		case ke != c08Falls:
+			return cb, c08Falls
+		case cb.coq() == startB.coq() && ce.coq() == startE.coq():
+			return C, c08Falls
+		}
+		return c08Or(cb, ce), c08Falls
+	case *ast.ForStmt:
+		inner := sc.child()
+		if v.Init != nil {
+			w.stmt(v.Init, C, inner)
+		}
+		w.expr(v.Cond, C, inner)
+		w.block(v.Body.List, C, inner)
+		return C, c08Falls
+	case *ast.RangeStmt:
+		w.expr(v.X, C, sc)
+		inner := sc.child()
+		suffix := ""
+		for _, t := range sc.subst {
+			if strings.HasPrefix(t, "$elem") {
+				suffix = "'" // a loop inside a loop
+			}
+		}
+		key, val := v.Key, v.Value
+		if val == nil {
+			key, val = nil, key // for k := range m: the one variable is the element of the loop
+		}
+		if id, ok := key.(*ast.Ident); ok && id.Name != "_" {
+			inner.subst[id.Name] = "$key" + suffix
+		}
+		if id, ok := val.(*ast.Ident); ok && id.Name != "_" {
+			inner.subst[id.Name] = "$elem" + suffix
+		}
+		w.block(v.Body.List, C, inner)
+		return C, c08Falls
+	case *ast.SwitchStmt:
+		inner := sc.child()
+		if v.Init != nil {
+			C, _ = w.stmt(v.Init, C, inner)
+		}
+		w.expr(v.Tag, C, inner)
+		earlier := c08F // some earlier case matched
+		after := c08F
+		hasDefault := false
+		var defaultClause *ast.CaseClause
+		allReturn := true
+		clause := func(cc *ast.CaseClause, cond *c08B) {
+			pos, _ := cond.abs(w.relevant)
+			c, k := w.block(cc.Body, c08And(C, pos), inner.child())
+			if k == c08Falls {
+				after = c08Or(after, c)
+			}
+			if k != c08Returns {
+				allReturn = false
+			}
+		}
+		for _, st := range v.Body.List {
+			cc := st.(*ast.CaseClause)
+			if cc.List == nil {
+				hasDefault, defaultClause = true, cc
+				continue
+			}
+			this := c08F
+			for _, e := range cc.List {
+				w.expr(e, C, inner)
+				if v.Tag != nil {
+					this = c08Or(this, inner.toB(&ast.BinaryExpr{X: v.Tag, Op: token.EQL, Y: e}))
+				} else {
+					this = c08Or(this, inner.toB(e))
+				}
+			}
+			clause(cc, c08And(this, c08Not(earlier)))
+			earlier = c08Or(earlier, this)
+		}
+		if hasDefault {
+			clause(defaultClause, c08Not(earlier))
+		} else {
+			_, neg := earlier.abs(w.relevant)
+			after = c08Or(after, c08And(C, neg))
+			allReturn = false
+		}
+		if after.op == "F" {
+			if allReturn {
+				return c08F, c08Returns
+			}
+			return c08F, c08Loops
+		}
+		return after, c08Falls
+	case *ast.TypeSwitchStmt:
+		w.expr(v.Assign, C, sc)
+		for _, st := range v.Body.List {
+			w.block(st.(*ast.CaseClause).Body, C, sc.child())
+		}
+		return C, c08Falls
+	case *ast.SelectStmt:
+		for _, st := range v.Body.List {
+			cc := st.(*ast.CommClause)
+			w.stmt(cc.Comm, C, sc.child())
+			w.block(cc.Body, C, sc.child())
+		}
+		return C, c08Falls
+	default: // ExprStmt, GoStmt, DeferStmt, IncDecStmt, SendStmt, EmptyStmt
+		w.expr(s, C, sc)
+		return C, c08Falls
 	}
-	return tags
+}
+
+// c08EvalBool: the value of a boolean function body: the disjunction over its return statements
+func c08EvalBool(pkg *c08Pkg, body *ast.BlockStmt, sc *c08Scope) *c08B {
+	res := c08F
+	w := &c08Walk{pkg: pkg}
+	w.onReturn = func(C *c08B, r *ast.ReturnStmt, sc *c08Scope) {
+		if len(r.Results) != 1 {
+			res = c08Or(res, c08And(C, c08Unk("return of "+strconv.Itoa(len(r.Results))+" values")))
+			return
+		}
+		res = c08Or(res, c08And(C, sc.toB(r.Results[0])))
+	}
+	w.block(body.List, c08T, sc)
+	return res
+}
+
+// ---- printing ---------------------------------------------------------------------------------------------
+
+func c08CoqRows(rows []c08Row) string {
+	if len(rows) == 0 {
+		return "[]"
+	}
+	it := make([]string, len(rows))
+	for i, r := range rows {
+		it[i] = fmt.Sprintf("mkRow %s %s %s\n      %s", hx.CoqStr(r.callee), hx.CoqStr(r.format), hx.CoqStrList(r.args), r.cond.coq())
+	}
+	return "[" + strings.Join(it, ";\n   ") + "]"
+}
+
+func c08UnknownRows(what string) []c08Row {
+	return []c08Row{{callee: "<unknown: " + what + ">", cond: c08Unk(what)}}
+}
+
+func c08Suffixes(sfx ...string) func(string) bool {
+	return func(callee string) bool {
+		for _, s := range sfx {
+			if callee == s || strings.HasSuffix(callee, "."+s) {
+				return true
+			}
+		}
+		return false
+	}
+}
+
+// rows of one function: every interesting call in it and in the helpers it calls
+func c08RowsOf(pkg *c08Pkg, key string, interesting func(string) bool) []c08Row {
+	fd := pkg.funcs[key]
+	if fd == nil {
+		return c08UnknownRows(key + " not found")
+	}
+	w := &c08Walk{pkg: pkg, dropReturns: true, follow: true, interesting: interesting, stack: map[*ast.FuncDecl]bool{fd: true},
+		relevant: func(a string) bool { return strings.Contains(a, "$") }}
+	w.block(fd.Body.List, c08T, c08FuncScope(pkg, fd, "$recv", nil, 0))
+	return w.rows
+}
+
+// reach: necessary conditions over the dry-run / hide-secret atoms for reaching the calls
+func c08Reach(pkg *c08Pkg, key string, classes map[string]func(string) bool) (map[string]*c08B, []string) {
+	out := map[string]*c08B{}
+	fd := pkg.funcs[key]
+	if fd == nil {
+		for k := range classes {
+			out[k] = c08Unk(key + " not found")
+		}
+		return out, []string{"<unknown: " + key + " not found>"}
+	}
+	w := &c08Walk{pkg: pkg, follow: true, stack: map[*ast.FuncDecl]bool{fd: true},
+		interesting: func(c string) bool {
+			for _, f := range classes {
+				if f(c) {
+					return true
+				}
+			}
+			return false
+		},
+		relevant: func(a string) bool {
+			return strings.Contains(a, "$recv.DryRun") || strings.Contains(a, "$recv.HideSecret")
+		}}
+	w.block(fd.Body.List, c08T, c08FuncScope(pkg, fd, "$recv", nil, 0))
+	var renderArgs []string
+	for k, f := range classes {
+		acc, found := c08F, false
+		for _, r := range w.rows {
+			if f(r.callee) {
+				acc, found = c08Or(acc, r.cond), true
+				if k == "render" && renderArgs == nil {
+					renderArgs = r.args
+				}
+			}
+		}
+		if !found {
+			acc = c08Unk("no call of class " + k + " in " + key)
+		}
+		out[k] = acc
+	}
+	if renderArgs == nil {
+		renderArgs = []string{"<unknown: no call of renderResources in " + key + ">"}
+	}
+	return out, renderArgs
 }
 
 func genC08Render(repo string) (string, error) {
 	var b strings.Builder
-	b.WriteString("From Helm Require Import Common.Strs.\n")
-	af, afs, err := parseFile(repo, "pkg/action/action.go")
+	b.WriteString("From Helm Require Import Common.Strs Text.Cond.\n\n")
+	act, err := c08LoadPkg(repo, "pkg/action")
 	if err != nil {
-		return "", err
+		act = &c08Pkg{fset: token.NewFileSet(), funcs: map[string]*ast.FuncDecl{}, byName: map[string][]*ast.FuncDecl{}, consts: map[string]string{}}
 	}
-	rr := c08Func(af, "Configuration", "renderResources")
-	if rr == nil {
-		return "", fmt.Errorf("renderResources not found")
-	}
-	var formats []string
-	for _, c := range c08CallsTo(rr, "Fprintf") {
-		if len(c.Args) >= 2 {
-			if s, ok := strLit(c.Args[1]); ok {
-				formats = append(formats, s)
+	// renderResources: buffer writes, file writes, notes, deletion of NOTES keys, the post-renderer
+	rr := c08RowsOf(act, "Configuration.renderResources", c08Suffixes("Fprintf", "writeToFile", "WriteString", "delete", "Run"))
+	fmt.Fprintf(&b, "(* pkg/action/action.go renderResources and the helpers it calls: call sites with their path conditions *)\nDefinition render_rows : list row :=\n  %s.\n\n", c08CoqRows(rr))
+	// the NOTES key order: the comparison handed to sort.Slice, evaluated
+	less := c08Unk("no sort.Slice(keys, func) in renderResources")
+	if fd := act.funcs["Configuration.renderResources"]; fd != nil {
+		sc := c08FuncScope(act, fd, "$recv", nil, 0)
+		ast.Inspect(fd.Body, func(n ast.Node) bool {
+			c, ok := n.(*ast.CallExpr)
+			if !ok || len(c.Args) != 2 || sc.canon(c.Fun) != "sort.Slice" {
+				return true
 			}
-		}
-	}
-	fmt.Fprintf(&b, "(* pkg/action/action.go renderResources: the formats of its fmt.Fprintf calls, in source order *)\nDefinition render_formats : list string :=\n  %s.\n\n", hx.CoqStrList(formats))
-	// conditions
-	var hideCond, notesCond, notesSel, crdsFlag string
-	var outDirTests []string
-	ast.Inspect(rr, func(x ast.Node) bool {
-		ifs, ok := x.(*ast.IfStmt)
-		if !ok {
-			return true
-		}
-		c := c08Src(afs, ifs.Cond)
-		switch {
-		case strings.Contains(c, "hideSecret"):
-			hideCond = c
-		case strings.Contains(c, "HasSuffix") && strings.Contains(c, "notesFileSuffix"):
-			notesCond = c
-		case strings.Contains(c, "subNotes"):
-			notesSel = c
-		case c == "includeCrds":
-			crdsFlag = c
-		case strings.Contains(c, "outputDir"):
-			outDirTests = append(outDirTests, c)
-		}
-		return true
-	})
-	fmt.Fprintf(&b, "Definition hide_secret_condition : string := %s.\n", hx.CoqStr(hideCond))
-	fmt.Fprintf(&b, "Definition notes_file_condition : string := %s.\n", hx.CoqStr(notesCond))
-	fmt.Fprintf(&b, "Definition notes_selected_condition : string := %s.\n", hx.CoqStr(notesSel))
-	fmt.Fprintf(&b, "Definition include_crds_condition : string := %s.\n", hx.CoqStr(crdsFlag))
-	fmt.Fprintf(&b, "Definition output_dir_conditions : list string := %s.\n", hx.CoqStrList(outDirTests))
-	// the NOTES key comparison
-	var sortLess []string
-	for _, c := range c08CallsTo(rr, "Slice") {
-		if len(c.Args) == 2 {
-			if fl, ok := c.Args[1].(*ast.FuncLit); ok {
-				for _, st := range fl.Body.List {
-					sortLess = append(sortLess, c08Src(afs, st))
+			fl, ok := c.Args[1].(*ast.FuncLit)
+			if !ok || len(fl.Type.Params.List) == 0 {
+				return true
+			}
+			inner := sc.child()
+			inner.single = c08Singles(fl.Body)
+			if id, ok := c.Args[0].(*ast.Ident); ok {
+				inner.subst[id.Name] = "$slice"
+			}
+			i := 0
+			for _, f := range fl.Type.Params.List {
+				for _, nm := range f.Names {
+					inner.subst[nm.Name] = fmt.Sprintf("$p%d", i)
+					i++
 				}
 			}
+			less = c08EvalBool(act, fl.Body, inner)
+			return false
+		})
+	}
+	fmt.Fprintf(&b, "(* the less function of sort.Slice on the NOTES keys, as the disjunction over its returns *)\nDefinition notes_less : bexp :=\n  %s.\n\n", less.coq())
+	// writeToFile / createOrOpenFile
+	wr := c08RowsOf(act, "writeToFile", c08Suffixes("Fprintf", "OpenFile", "Create"))
+	fmt.Fprintf(&b, "(* pkg/action/install.go writeToFile and createOrOpenFile *)\nDefinition write_rows : list row :=\n  %s.\n\n", c08CoqRows(wr))
+	// the guard
+	applies := func(c string) bool {
+		last := c[strings.LastIndex(c, ".")+1:]
+		return strings.HasPrefix(last, "performInstall") || strings.HasPrefix(last, "performUpgrade") ||
+			last == "Create" && (strings.Contains(c, "KubeClient") || strings.Contains(c, "Releases"))
+	}
+	classes := map[string]func(string) bool{"render": c08Suffixes("renderResources"), "apply": applies}
+	dry := func(key string) *c08B {
+		fd := act.funcs[key]
+		if fd == nil || !c08ReturnsBool(fd) {
+			return c08Unk(key + " not found")
 		}
+		return c08EvalBool(act, fd.Body, c08FuncScope(act, fd, "$recv", nil, 1))
 	}
-	fmt.Fprintf(&b, "Definition notes_less : list string := %s.\n", hx.CoqStrList(sortLess))
-	// the post-renderer call
-	var prCall []string
-	for _, c := range c08CallsTo(rr, "Run") {
-		prCall = append(prCall, c08Src(afs, c))
-	}
-	fmt.Fprintf(&b, "Definition post_render_calls : list string := %s.\n\n", hx.CoqStrList(prCall))
-
-	inf, ifs, err := parseFile(repo, "pkg/action/install.go")
+	ir, iargs := c08Reach(act, "Install.RunWithContext", classes)
+	ur, uargs := c08Reach(act, "Upgrade.prepareUpgrade", map[string]func(string) bool{"render": classes["render"]})
+	fmt.Fprintf(&b, "(* pkg/action/install.go: Install.isDryRun evaluated; what must hold of DryRun / DryRunOption / HideSecret for\n   RunWithContext to reach renderResources, and to reach a call that applies the release *)\n")
+	fmt.Fprintf(&b, "Definition install_is_dry_run : bexp :=\n  %s.\n", dry("Install.isDryRun").coq())
+	fmt.Fprintf(&b, "Definition install_render_reach : bexp :=\n  %s.\n", ir["render"].coq())
+	fmt.Fprintf(&b, "Definition install_apply_reach : bexp :=\n  %s.\n", ir["apply"].coq())
+	fmt.Fprintf(&b, "Definition install_render_args : list string := %s.\n\n", hx.CoqStrList(iargs))
+	fmt.Fprintf(&b, "(* pkg/action/upgrade.go: the same for Upgrade.prepareUpgrade *)\n")
+	fmt.Fprintf(&b, "Definition upgrade_is_dry_run : bexp :=\n  %s.\n", dry("Upgrade.isDryRun").coq())
+	fmt.Fprintf(&b, "Definition upgrade_render_reach : bexp :=\n  %s.\n", ur["render"].coq())
+	fmt.Fprintf(&b, "Definition upgrade_render_args : list string := %s.\n\n", hx.CoqStrList(uargs))
+	// chart.go
+	cp, err := c08LoadPkg(repo, "pkg/chart/v2")
 	if err != nil {
-		return "", err
+		cp = &c08Pkg{fset: token.NewFileSet(), funcs: map[string]*ast.FuncDecl{}, byName: map[string][]*ast.FuncDecl{}, consts: map[string]string{}}
 	}
-	wf := c08Func(inf, "", "writeToFile")
-	if wf == nil {
-		return "", fmt.Errorf("writeToFile not found")
-	}
-	var wformats, wjoin []string
-	for _, c := range c08CallsTo(wf, "Fprintf") {
-		if len(c.Args) >= 2 {
-			if s, ok := strLit(c.Args[1]); ok {
-				wformats = append(wformats, s)
+	cr := c08RowsOf(cp, "Chart.CRDObjects", c08Suffixes("append"))
+	fmt.Fprintf(&b, "(* pkg/chart/v2/chart.go CRDObjects (hasManifestExtension evaluated inside the condition) *)\nDefinition crd_rows : list row :=\n  %s.\n", c08CoqRows(cr))
+	crdName := "<unknown: no Filename field in CRDObjects>"
+	if fd := cp.funcs["Chart.CRDObjects"]; fd != nil {
+		sc := c08FuncScope(cp, fd, "$recv", nil, 0)
+		ast.Inspect(fd.Body, func(n ast.Node) bool {
+			switch v := n.(type) {
+			case *ast.RangeStmt:
+				if id, ok := v.Value.(*ast.Ident); ok {
+					if _, seen := sc.subst[id.Name]; !seen {
+						sc.subst[id.Name] = "$elem"
+					}
+				}
+			case *ast.KeyValueExpr:
+				if k, ok := v.Key.(*ast.Ident); ok && k.Name == "Filename" {
+					crdName = sc.canon(v.Value)
+				}
 			}
-		}
+			return true
+		})
 	}
-	for _, c := range c08CallsTo(wf, "Join") {
-		wjoin = append(wjoin, c08Src(ifs, c))
-	}
-	fmt.Fprintf(&b, "(* pkg/action/install.go writeToFile / createOrOpenFile *)\nDefinition write_formats : list string := %s.\n", hx.CoqStrList(wformats))
-	fmt.Fprintf(&b, "Definition write_path : list string := %s.\n", hx.CoqStrList(wjoin))
-	cof := c08Func(inf, "", "createOrOpenFile")
-	if cof == nil {
-		return "", fmt.Errorf("createOrOpenFile not found")
-	}
-	var cofStmts []string
-	for _, st := range cof.Body.List {
-		cofStmts = append(cofStmts, c08Src(ifs, st))
-	}
-	fmt.Fprintf(&b, "Definition create_or_open : list string := %s.\n\n", hx.CoqStrList(cofStmts))
-
-	// isDryRun, the skeletons and the arguments of renderResources
-	dry := func(f *ast.File, fset *token.FileSet, recv string) (string, error) {
-		fd := c08Func(f, recv, "isDryRun")
-		if fd == nil || len(fd.Body.List) != 2 {
-			return "", fmt.Errorf("%s.isDryRun: unexpected shape", recv)
-		}
-		is, ok := fd.Body.List[0].(*ast.IfStmt)
-		if !ok || c08Src(fset, is.Body) != "{ return true }" || c08Src(fset, fd.Body.List[1]) != "return false" {
-			return "", fmt.Errorf("%s.isDryRun: unexpected shape", recv)
-		}
-		return c08Src(fset, is.Cond), nil
-	}
-	args := func(fset *token.FileSet, fd *ast.FuncDecl) []string {
-		var out []string
-		for _, c := range c08CallsTo(fd, "renderResources") {
-			for _, a := range c.Args {
-				out = append(out, c08Src(fset, a))
-			}
-		}
-		return out
-	}
-	idr, err := dry(inf, ifs, "Install")
-	if err != nil {
-		return "", err
-	}
-	run := c08Func(inf, "Install", "RunWithContext")
-	if run == nil {
-		return "", fmt.Errorf("Install.RunWithContext not found")
-	}
-	fmt.Fprintf(&b, "(* pkg/action/install.go *)\nDefinition install_is_dry_run : string := %s.\n", hx.CoqStr(idr))
-	fmt.Fprintf(&b, "Definition install_skeleton : list string := %s.\n", hx.CoqStrList(c08Skeleton(ifs, run, "i")))
-	fmt.Fprintf(&b, "Definition install_render_args : list string := %s.\n\n", hx.CoqStrList(args(ifs, run)))
-	uf, ufs, err := parseFile(repo, "pkg/action/upgrade.go")
-	if err != nil {
-		return "", err
-	}
-	udr, err := dry(uf, ufs, "Upgrade")
-	if err != nil {
-		return "", err
-	}
-	prep := c08Func(uf, "Upgrade", "prepareUpgrade")
-	if prep == nil {
-		return "", fmt.Errorf("Upgrade.prepareUpgrade not found")
-	}
-	fmt.Fprintf(&b, "(* pkg/action/upgrade.go *)\nDefinition upgrade_is_dry_run : string := %s.\n", hx.CoqStr(udr))
-	fmt.Fprintf(&b, "Definition upgrade_skeleton : list string := %s.\n", hx.CoqStrList(c08Skeleton(ufs, prep, "u")))
-	fmt.Fprintf(&b, "Definition upgrade_render_args : list string := %s.\n\n", hx.CoqStrList(args(ufs, prep)))
-
-	cf, cfs, err := parseFile(repo, "pkg/chart/v2/chart.go")
-	if err != nil {
-		return "", err
-	}
-	co := c08Func(cf, "Chart", "CRDObjects")
-	hme := c08Func(cf, "", "hasManifestExtension")
-	if co == nil || hme == nil {
-		return "", fmt.Errorf("CRDObjects / hasManifestExtension not found")
-	}
-	crdCond, crdName, extRet := "", "", ""
-	ast.Inspect(co, func(x ast.Node) bool {
-		switch v := x.(type) {
-		case *ast.IfStmt:
-			crdCond = c08Src(cfs, v.Cond)
-		case *ast.KeyValueExpr:
-			if k, ok := v.Key.(*ast.Ident); ok && k.Name == "Filename" {
-				crdName = c08Src(cfs, v.Value)
-			}
-		}
-		return true
-	})
-	ast.Inspect(hme, func(x ast.Node) bool {
-		if r, ok := x.(*ast.ReturnStmt); ok && len(r.Results) == 1 {
-			extRet = c08Src(cfs, r.Results[0])
-		}
-		return true
-	})
-	fmt.Fprintf(&b, "(* pkg/chart/v2/chart.go CRDObjects / hasManifestExtension *)\nDefinition crd_file_condition : string := %s.\n", hx.CoqStr(crdCond))
 	fmt.Fprintf(&b, "Definition crd_filename : string := %s.\n", hx.CoqStr(crdName))
-	fmt.Fprintf(&b, "Definition manifest_extension_test : string := %s.\n", hx.CoqStr(extRet))
+	_ = sort.Strings
 	return b.String(), nil
 }
